@@ -1,5 +1,6 @@
 import SameVerif.Model.Link
 import SameVerif.Model.Receiver
+import SameVerif.Lemmas.LinkBurst
 /-
   C01 — Complete SAME transmissions decode exactly, at any supported rate.
   First instalment: facts about the link model's synchronisation logic.  The digital chain
@@ -26,5 +27,299 @@ theorem preamble_ambiguity :
 theorem warmup (c : LCfg) (s : LState) (o : Obs) (b : Byte) (h : s.nsym + 1 < 32) (hf : s.fr = .idle) :
     (lstep c s o b).2.1 = .noCarrier ∧ (lstep c s o b).1.clock = s.clock ∧ (lstep c s o b).1.fr = .idle := by
   simp [lstep, h, hf, fend]
+
+/-! ## Second instalment: one burst through the link model
+
+  Front-end assumptions `Spec.BurstObserved` (FE1–FE3 for one burst) ⇒ the link model reports
+  exactly one burst, `payload ++ g`, and is quiescent again.  Hypotheses that the proof forced,
+  beyond `Spec.PayloadOk`:
+  * `c.maxErrors ≤ 6` (with 7 every burst is mis-synchronised, `budget7_false_resync`);
+  * a fifth payload byte, if there is one, is `-` (true of every header `ZCZC-…`; for other
+    allowed characters in bytes 4…6 a misaligned window ending at bits 176…181 can be within 4…6
+    errors of the sync word, see `no_false_resync_min`);
+  * `c.fc.maxPrefixErr ≤ 7`, and `≤ 4` for `NNNN` bursts: the window `AB 4E 4E 4E` is 5 bit errors
+    from `NNNN`, so with a prefix budget of 5…7 an `NNNN` burst is framed one byte early
+    (`nnnn_prefix_budget5`).
+-/
+open SameVerif.Spec
+
+/-- (a) over the lead-in (power below the open threshold) the receiver reports only `noCarrier`,
+    no burst, and stays quiescent -/
+theorem lead_quiet (c : LCfg) (s : LState) (hs : Quiescent s) (lead : List Tick)
+    (hl : ∀ x ∈ lead, x.1.openOk = false) :
+    (∀ ls ∈ lrun c s lead, ls = .noCarrier) ∧ lrunBursts c s lead = []
+      ∧ Quiescent (lrunState c s lead) :=
+  quiet_run c lead hl s hs
+
+/-- (b) the first synchronisation happens at body tick `syncTick acq` — the end of the first
+    byte-aligned window at or after `acq + 31` — and not before: right after that tick the byte
+    clock has just started, four training bytes are pending (one consumed), the framer has been
+    restarted with one preamble byte, and no burst has been reported -/
+theorem first_sync (c : LCfg) (hE : c.maxErrors ≤ 6) (hP : c.fc.maxPrefixErr < 15)
+    (s : LState) (hs : Quiescent s) (payload : List Byte) (hok : PayloadOk payload)
+    (lead body tail : List Tick) (acq rel : Nat) (H : BurstObserved payload lead body tail acq rel) :
+    acq + 31 ≤ syncTick acq ∧ syncTick acq < acq + 39 ∧ syncTick acq % 8 = 7 ∧ syncTick acq ≤ 127
+      ∧ (∀ t, t ≤ syncTick acq → (lrunState c s ((body ++ tail).take t)).clock = none
+            ∧ lrunBursts c s ((body ++ tail).take t) = [])
+      ∧ (lrunState c s ((body ++ tail).take (syncTick acq + 1))).clock = some 1
+      ∧ (lrunState c s ((body ++ tail).take (syncTick acq + 1))).fr = .search 0xAB 1
+      ∧ (lrunState c s ((body ++ tail).take (syncTick acq + 1))).train = 3
+      ∧ lrunBursts c s ((body ++ tail).take (syncTick acq + 1)) = [] := by
+  have hacq := H.acq_le
+  obtain ⟨f1, _, f3, f4, f5⟩ := first_sync_state H hok c hE hP s hs
+  refine ⟨by unfold syncTick; omega, by unfold syncTick; omega, by unfold syncTick; omega,
+    by unfold syncTick; omega, ?_, f1, f3, f4, f5⟩
+  intro t ht
+  obtain ⟨q1, _, _, q4⟩ := phase_quiet H hok c hE s hs (syncTick acq) (by unfold syncTick; omega)
+    (by unfold syncTick; intro t h1 h2; omega) t ht
+  exact ⟨q1, q4⟩
+
+/-- (c) **no false resynchronisation**, at the level of windows: every 32-bit window over the
+    transmitted bits that ends misaligned (`j % 8 ≠ 7`) at a bit `j ≤ 182` — the squelch locks at
+    bit 183, when the framer receives the fourth prefix byte — is at least 7 errors away from the
+    sync word (all-preamble windows: at least 8).  The model's correlator error at body tick
+    `j ≥ acq + 31` is exactly `werr (frameOf payload) j` (`err_body`). -/
+theorem no_false_resync (payload : List Byte) (hok : PayloadOk payload)
+    (hdash : ∀ h : 4 < payload.length, payload[4] = 45) (j : Nat) (h31 : 31 ≤ j) (h182 : j ≤ 182)
+    (hn : j < 8 * (frameOf payload).length) (ha : j % 8 ≠ 7) : 7 ≤ werr (frameOf payload) j := by
+  by_cases h : j ≤ 126
+  · have := werr_preamble_misaligned payload j h31 h ha; omega
+  · exact werr_payload_misaligned payload hok hdash j (by omega) h182 hn ha
+
+/-- the bound 7 is attained two bits into the first prefix byte, whatever the payload -/
+theorem no_false_resync_min (payload : List Byte) (hok : PayloadOk payload) :
+    werr (frameOf payload) 129 = 7 := by
+  rw [werr_eq_W5 _ _ (by omega), frame_getD_lt payload _ (by omega), frame_getD_lt payload _ (by omega),
+    frame_getD_lt payload _ (by omega), frame_getD_lt payload _ (by omega),
+    frame_getD_ge payload _ (by omega)]
+  rcases hok.starts with hs | hs
+  · rw [(getD_of_take4 hs).1]; decide +kernel
+  · rw [(getD_of_take4 hs).1]; decide +kernel
+
+/-- the evaluated table for one header (`ZCZC-WXR-RWT-012345+0030-1231200-KXYZ/NWS-`): errors of the
+    windows ending at bits 128…182; the entries ≤ 6 (5 at bit 135) are byte-aligned, where a hit
+    only re-affirms the clock -/
+theorem no_false_resync_table :
+    (List.range 55).map (fun d => werr (frameOf [90, 67, 90, 67, 45, 87, 88, 82, 45, 82, 87, 84, 45,
+        48, 49, 50, 51, 52, 53, 43, 48, 48, 51, 48, 45, 49, 50, 51, 49, 50, 48, 48, 45, 75, 88, 89, 90,
+        47, 78, 87, 83, 45]) (128 + d))
+      = [25, 7, 25, 7, 24, 9, 22, 5, 21, 11, 21, 10, 22, 11, 20, 9, 18, 14, 20, 12, 21, 12, 19, 14, 14,
+         18, 16, 15, 19, 14, 17, 18, 9, 24, 11, 21, 16, 15, 18, 16, 12, 20, 13, 21, 14, 18, 16, 18, 10,
+         21, 11, 21, 13, 19, 15] := by
+  decide +kernel
+
+/-- (d) what the framer has seen when the last payload byte has been delivered (tail tick 30
+    done, tail tick 31 is the next byte tick): restarted once, fed `0xAB × (19 - q0) ++ payload`
+    (`phase_synced`), it holds exactly the payload with no invalid byte counted; the squelch is
+    locked, training is over, and nothing has been reported yet -/
+theorem framer_sees (c : LCfg) (hE : c.maxErrors ≤ 6) (hP : c.fc.maxPrefixErr ≤ 7)
+    (s : LState) (hs : Quiescent s) (payload : List Byte) (hok : PayloadOk payload)
+    (hdash : ∀ h : 4 < payload.length, payload[4] = 45)
+    (hP4 : payload.take 4 = [78, 78, 78, 78] → c.fc.maxPrefixErr ≤ 4)
+    (lead body tail : List Tick) (acq rel : Nat) (H : BurstObserved payload lead body tail acq rel) :
+    (lrunState c s ((body ++ tail).take (body.length + 31))).fr = .read payload 0
+      ∧ (lrunState c s ((body ++ tail).take (body.length + 31))).lock = true
+      ∧ (lrunState c s ((body ++ tail).take (body.length + 31))).clock = some 0
+      ∧ (lrunState c s ((body ++ tail).take (body.length + 31))).train = 0
+      ∧ lrunBursts c s ((body ++ tail).take (body.length + 31)) = [] := by
+  obtain ⟨e1, e2, e3, e4, e5⟩ :=
+    synced_end H hok hdash c hE (prefixFacts_of c.fc payload hok hP hP4) s hs
+  exact ⟨e4, e2, e1, e3, e5⟩
+
+/-- **C01, one burst.**  Under the front-end assumptions for one burst, from any quiescent state,
+    the link model reports exactly one burst: the payload followed by at most `⌈rel / 8⌉` bytes of
+    whatever the equalizer decided after the carrier stopped; and it is quiescent again. -/
+theorem burst_delivered (c : LCfg) (hE : c.maxErrors ≤ 6) (hP : c.fc.maxPrefixErr ≤ 7)
+    (s : LState) (hs : Quiescent s) (payload : List Byte) (hok : PayloadOk payload)
+    (hdash : ∀ h : 4 < payload.length, payload[4] = 45)
+    (hP4 : payload.take 4 = [78, 78, 78, 78] → c.fc.maxPrefixErr ≤ 4)
+    (lead body tail : List Tick) (acq rel : Nat) (H : BurstObserved payload lead body tail acq rel) :
+    ∃ g, lrunBursts c s (lead ++ body ++ tail) = [payload ++ g] ∧ g.length ≤ (rel + 7) / 8
+      ∧ Quiescent (lrunState c s (lead ++ body ++ tail)) :=
+  burst_whole H hok hdash c hE (prefixFacts_of c.fc payload hok hP hP4) s hs
+
+/-- the same with the bound in the form `rel / 8 + 2` -/
+theorem burst_delivered' (c : LCfg) (hE : c.maxErrors ≤ 6) (hP : c.fc.maxPrefixErr ≤ 7)
+    (s : LState) (hs : Quiescent s) (payload : List Byte) (hok : PayloadOk payload)
+    (hdash : ∀ h : 4 < payload.length, payload[4] = 45)
+    (hP4 : payload.take 4 = [78, 78, 78, 78] → c.fc.maxPrefixErr ≤ 4)
+    (lead body tail : List Tick) (acq rel : Nat) (H : BurstObserved payload lead body tail acq rel) :
+    ∃ g, lrunBursts c s (lead ++ body ++ tail) = [payload ++ g] ∧ g.length ≤ rel / 8 + 2
+      ∧ Quiescent (lrunState c s (lead ++ body ++ tail)) := by
+  obtain ⟨g, h1, h2, h3⟩ := burst_delivered c hE hP s hs payload hok hdash hP4 lead body tail acq rel H
+  exact ⟨g, h1, by omega, h3⟩
+
+/-! ### non-vacuity and the two budget findings, on a concrete stream -/
+
+/-- a stream built from the front-end assumptions: quiet lead-in; body with correct bits, open
+    threshold and equalizer bytes exactly as `BurstObserved` asks and `garb` elsewhere; tail with
+    some bit pattern and `garb` as equalizer decisions -/
+def demoLead (n : Nat) : List Tick := List.replicate n (⟨false, false, false⟩, 0)
+def demoBody (payload : List Byte) (acq : Nat) (garb : Byte) : List Tick :=
+  (List.range (8 * (frameOf payload).length)).map (fun j =>
+    (⟨decide (acq ≤ j) && (bitsOf (frameOf payload)).getD j false, decide (acq + 31 ≤ j), decide (acq ≤ j)⟩,
+     if j % 8 = 7 ∧ 3 ≤ j / 8 then (frameOf payload).getD (j / 8 - 3) 0 else garb))
+def demoTail (payload : List Byte) (rel : Nat) (garb : Byte) : List Tick :=
+  (List.range (rel + 40)).map (fun k =>
+    (⟨k % 3 = 0, false, decide (k < rel)⟩,
+     if k % 8 = 7 ∧ k / 8 < 3 then (frameOf payload).getD ((frameOf payload).length - 3 + k / 8) 0
+     else garb))
+
+/-- `ZCZC-WXR-RWT-012345+0030-1231200-KXYZ/NWS-` -/
+def demoHeader : List Byte := [90, 67, 90, 67, 45, 87, 88, 82, 45, 82, 87, 84, 45, 48, 49, 50, 51, 52,
+  53, 43, 48, 48, 51, 48, 45, 49, 50, 51, 49, 50, 48, 48, 45, 75, 88, 89, 90, 47, 78, 87, 83, 45]
+def demoEom : List Byte := [78, 78, 78, 78]
+
+theorem demoHeader_ok : PayloadOk demoHeader ∧ ∀ h : 4 < demoHeader.length, demoHeader[4] = 45 :=
+  ⟨⟨by decide, by decide, by decide⟩, by decide⟩
+
+theorem demoEom_ok : PayloadOk demoEom ∧ ∀ h : 4 < demoEom.length, demoEom[4] = 45 :=
+  ⟨⟨by decide, by decide, by decide⟩, by decide⟩
+
+theorem demoHeader_frame_len : (frameOf demoHeader).length = 58 := by decide
+theorem demoEom_frame_len : (frameOf demoEom).length = 20 := by decide
+
+set_option maxRecDepth 100000 in
+theorem demoHeader_eq_ok : ∀ m, m < 55 →
+    ∀ (hj : 8 * (m + 3) + 7 < (demoBody demoHeader 5 0x41).length),
+      ((demoBody demoHeader 5 0x41)[8 * (m + 3) + 7]).2 = (frameOf demoHeader).getD m 0 := by
+  decide +kernel
+
+set_option maxRecDepth 100000 in
+theorem demoEom_eq_ok : ∀ m, m < 17 →
+    ∀ (hj : 8 * (m + 3) + 7 < (demoBody demoEom 5 0).length),
+      ((demoBody demoEom 5 0)[8 * (m + 3) + 7]).2 = (frameOf demoEom).getD m 0 := by
+  decide +kernel
+
+set_option maxRecDepth 100000 in
+/-- the demo stream satisfies the front-end assumptions (acquisition at bit 5, release after 10) -/
+theorem demoHeader_observed :
+    BurstObserved demoHeader (demoLead 40) (demoBody demoHeader 5 0x41) (demoTail demoHeader 10 0x41) 5 10 where
+  lead_closed := by decide +kernel
+  body_len := by decide +kernel
+  acq_le := by decide
+  bits_ok := by decide +kernel
+  open_late := by decide +kernel
+  open_ok := by decide +kernel
+  close_ok := by decide +kernel
+  eq_ok := by
+    intro m hm
+    rw [demoHeader_frame_len] at hm
+    exact demoHeader_eq_ok m (by omega)
+  eq_tail := by decide +kernel
+  tail_closed := by decide +kernel
+  rel_hold := by decide +kernel
+  rel_drop := by decide +kernel
+  tail_len := by decide +kernel
+
+set_option maxRecDepth 100000 in
+theorem demoEom_observed :
+    BurstObserved demoEom (demoLead 40) (demoBody demoEom 5 0) (demoTail demoEom 10 0) 5 10 where
+  lead_closed := by decide +kernel
+  body_len := by decide +kernel
+  acq_le := by decide
+  bits_ok := by decide +kernel
+  open_late := by decide +kernel
+  open_ok := by decide +kernel
+  close_ok := by decide +kernel
+  eq_ok := by
+    intro m hm
+    rw [demoEom_frame_len] at hm
+    exact demoEom_eq_ok m (by omega)
+  eq_tail := by decide +kernel
+  tail_closed := by decide +kernel
+  rel_hold := by decide +kernel
+  rel_drop := by decide +kernel
+  tail_len := by decide +kernel
+
+theorem quiescent_fresh32 : Quiescent { nsym := 32 } := ⟨by decide, rfl, rfl, rfl⟩
+
+/-- non-vacuity: the hypotheses of `burst_delivered` are satisfiable, and on this stream the model
+    (default budgets 2, 2, 5) gives the header followed by `⌈10 / 8⌉ = 2` garbage bytes -/
+example :
+    lrunBursts ⟨2, ⟨2, 5⟩⟩ { nsym := 32 }
+        (demoLead 40 ++ demoBody demoHeader 5 0x41 ++ demoTail demoHeader 10 0x41)
+      = [demoHeader ++ [0x41, 0x41]] := by
+  decide +kernel
+
+example : ∃ g, lrunBursts ⟨6, ⟨7, 5⟩⟩ { nsym := 32 }
+        (demoLead 40 ++ demoBody demoHeader 5 0x41 ++ demoTail demoHeader 10 0x41)
+      = [demoHeader ++ g] ∧ g.length ≤ (10 + 7) / 8
+      ∧ Quiescent (lrunState ⟨6, ⟨7, 5⟩⟩ { nsym := 32 }
+          (demoLead 40 ++ demoBody demoHeader 5 0x41 ++ demoTail demoHeader 10 0x41)) :=
+  burst_delivered ⟨6, ⟨7, 5⟩⟩ (by decide) (by decide) _ quiescent_fresh32 demoHeader demoHeader_ok.1
+    demoHeader_ok.2 (by decide) _ _ _ 5 10 demoHeader_observed
+
+/-- **Budget 7 mis-synchronises.**  With `preamble_max_errors = 7` the same stream, which meets all
+    front-end assumptions, is not delivered: the misaligned window two bits into the first `Z`
+    (7 errors, `no_false_resync_min`) restarts the byte clock and the training bytes overwrite
+    the prefix; with the default prefix budget nothing is reported at all. -/
+theorem budget7_false_resync :
+    ∃ payload lead body tail acq rel, PayloadOk payload
+      ∧ (∀ h : 4 < payload.length, payload[4] = 45)
+      ∧ BurstObserved payload lead body tail acq rel
+      ∧ lrunBursts ⟨7, ⟨2, 5⟩⟩ { nsym := 32 } (lead ++ body ++ tail) = [] :=
+  ⟨demoHeader, demoLead 40, demoBody demoHeader 5 0x41, demoTail demoHeader 10 0x41, 5, 10,
+    demoHeader_ok.1, demoHeader_ok.2, demoHeader_observed, by decide +kernel⟩
+
+/-- **Prefix budget 5 mis-frames `NNNN`.**  With `frame_prefix_max_errors = 5` (the builder allows up
+    to 7) an end-of-message burst that meets all front-end assumptions is framed one byte early:
+    the burst reported is `AB 4E 4E 4E 4E …`, not `NNNN …`; with budget 4 it is right. -/
+theorem nnnn_prefix_budget5 :
+    BurstObserved demoEom (demoLead 40) (demoBody demoEom 5 0) (demoTail demoEom 10 0) 5 10
+      ∧ lrunBursts ⟨2, ⟨5, 5⟩⟩ { nsym := 32 } (demoLead 40 ++ demoBody demoEom 5 0 ++ demoTail demoEom 10 0)
+          = [[0xAB, 78, 78, 78, 78, 0, 0]]
+      ∧ lrunBursts ⟨2, ⟨4, 5⟩⟩ { nsym := 32 } (demoLead 40 ++ demoBody demoEom 5 0 ++ demoTail demoEom 10 0)
+          = [[78, 78, 78, 78, 0, 0]] :=
+  ⟨demoEom_observed, by decide +kernel, by decide +kernel⟩
+
+/-- `ZCZCWWAAAAAA`: SAME characters only, begins `ZCZC`, but no `-` in fifth place -/
+def demoNoDash : List Byte := [90, 67, 90, 67, 87, 87, 65, 65, 65, 65, 65, 65]
+
+theorem demoNoDash_frame_len : (frameOf demoNoDash).length = 28 := by decide
+
+set_option maxRecDepth 100000 in
+theorem demoNoDash_eq_ok : ∀ m, m < 25 →
+    ∀ (hj : 8 * (m + 3) + 7 < (demoBody demoNoDash 5 0x41).length),
+      ((demoBody demoNoDash 5 0x41)[8 * (m + 3) + 7]).2 = (frameOf demoNoDash).getD m 0 := by
+  decide +kernel
+
+set_option maxRecDepth 100000 in
+theorem demoNoDash_observed :
+    BurstObserved demoNoDash (demoLead 40) (demoBody demoNoDash 5 0x41) (demoTail demoNoDash 10 0x41) 5 10 where
+  lead_closed := by decide +kernel
+  body_len := by decide +kernel
+  acq_le := by decide
+  bits_ok := by decide +kernel
+  open_late := by decide +kernel
+  open_ok := by decide +kernel
+  close_ok := by decide +kernel
+  eq_ok := by
+    intro m hm
+    rw [demoNoDash_frame_len] at hm
+    exact demoNoDash_eq_ok m (by omega)
+  eq_tail := by decide +kernel
+  tail_closed := by decide +kernel
+  rel_hold := by decide +kernel
+  rel_drop := by decide +kernel
+  tail_len := by decide +kernel
+
+/-- **`PayloadOk` alone is not enough** (why `burst_delivered` asks for the `-`): for the payload
+    `ZCZCWWAAAAAA` the misaligned window ending at bit 176 (one bit into payload byte 6, while the
+    squelch is still unlocked) is only 4 errors from the sync word; with sync budgets 4…6 the byte
+    clock is restarted there and the burst is lost, with budget 3 it is delivered. -/
+theorem dash_needed :
+    PayloadOk demoNoDash
+      ∧ BurstObserved demoNoDash (demoLead 40) (demoBody demoNoDash 5 0x41) (demoTail demoNoDash 10 0x41) 5 10
+      ∧ werr (frameOf demoNoDash) 176 = 4
+      ∧ lrunBursts ⟨4, ⟨2, 5⟩⟩ { nsym := 32 }
+          (demoLead 40 ++ demoBody demoNoDash 5 0x41 ++ demoTail demoNoDash 10 0x41) = []
+      ∧ lrunBursts ⟨6, ⟨2, 5⟩⟩ { nsym := 32 }
+          (demoLead 40 ++ demoBody demoNoDash 5 0x41 ++ demoTail demoNoDash 10 0x41) = []
+      ∧ lrunBursts ⟨3, ⟨2, 5⟩⟩ { nsym := 32 }
+          (demoLead 40 ++ demoBody demoNoDash 5 0x41 ++ demoTail demoNoDash 10 0x41)
+          = [demoNoDash ++ [0x41, 0x41]] :=
+  ⟨⟨by decide, by decide, by decide⟩, demoNoDash_observed, by decide +kernel, by decide +kernel,
+    by decide +kernel, by decide +kernel⟩
 
 end SameVerif.C01
